@@ -16,7 +16,7 @@ EPS = 2.3e-16
 
 def plan(tier):
     n = 320 if tier == 'quick' else 12000
-    return dict(suite_monitor=True, n_cases=n, shards=16, min_nontrivial=n // 3, min_hits={'freq': n // 2}, min_tags={'src:panel_method': n // 40, 'src:assembly_free': n // 40, 'src:bay_free': n // 40, 'spec:spring_net': n // 20},
+    return dict(suite_monitor=True, n_cases=n, shards=16, min_nontrivial=n // 3, min_hits={'freq': n // 2}, min_tags={'src:panel_method': n // 40, 'src:assembly_free': n // 40, 'src:bay_free': n // 40, 'spec:spring_net': n // 20, 'spec:low': n // 20},
                 watchdog_s=1500 if tier == 'quick' else 7200,
                 rule='random SPD pairs (K, M) sharing a random set of null rows/cols, sizes 6..%d, spectra spread over '
                      'decades / clustered within 0.1 rad/s / omega~1, 1..25 requested eigenvalues, both solver switches, '
@@ -120,7 +120,7 @@ def random_pair(rng, tier):
     n = int(rng.integers(6, 40)) if rng.random() < 0.6 else int(rng.integers(6, nmax + 1))
     na = n if rng.random() < 0.35 else int(rng.integers(max(5, n // 3), n + 1))
     act = np.sort(rng.choice(n, na, replace=False))
-    style = str(rng.choice(['spread', 'clustered', 'unit', 'repeated', 'wide', 'spring_net']))
+    style = str(rng.choice(['spread', 'clustered', 'unit', 'repeated', 'wide', 'spring_net', 'low']))
     if style == 'spring_net':
         # lumped spring-mass network: stiffness columns of the unrestrained nodes sum to exactly zero
         Ka = eig.spring_net(rng, na)
@@ -142,6 +142,10 @@ def random_pair(rng, tier):
         w2 = w ** 2
     elif style == 'unit':
         w2 = rng.uniform(0.3, 3.0, na) ** 2
+    elif style == 'low':
+        # heavy / soft systems: a few frequencies far below 1 rad/s (1e-3 .. 5e-2) under an ordinary spectrum
+        nlow = int(rng.integers(1, max(2, na // 2)))
+        w2 = np.concatenate([10 ** rng.uniform(-3, np.log10(0.05), nlow), 10 ** rng.uniform(0, 2, na - nlow)]) ** 2
     else:
         w = np.repeat(rng.uniform(1, 100, (na + 1) // 2), 2)[:na] * (1 + 1e-9 * rng.normal(size=na))
         w2 = w ** 2
